@@ -372,6 +372,7 @@ def run_dsopt(case):
   taus = [0.0, 0.0]
   mx = max(dims)
   lost = None
+  excluded = set()
   for g in hist:
     g32 = g.astype(np.float32)
     prev_pre = [np.asarray(x) for x in state.stats["w"].preconditioners]
@@ -390,16 +391,19 @@ def run_dsopt(case):
         # the axis is excluded from the remaining laws (counted).
         ev = np.sort(np.linalg.eigvalsh(gm @ gm.T))[::-1]
         expect_first = ev[0] - ev[k]
-        if lost is None and expect_first > 1e-3 * ev[0] and not np.any(np.asarray(l)):
-          lost = (f"axis {a} (dim {dims[a]} < largest statistic {mx}) after one update: stored sketch "
-                  f"eigenvalues {np.asarray(l)} but the deflated top eigenvalue is {expect_first:.6g}")
-        continue
+        if a not in excluded and trs[a].step == 0 and expect_first > 1e-3 * ev[0] and not np.any(np.asarray(l)):
+          excluded.add(a)
+          if lost is None:
+            lost = (f"axis {a} (dim {dims[a]} < largest statistic {mx}) after one update: stored sketch "
+                    f"eigenvalues {np.asarray(l)} but the deflated top eigenvalue is {expect_first:.6g}")
+        if a in excluded:
+          continue
       stored_first = float(prev_pre[a][-k:, -1][0])
       ridge = case["eps"] * (max(stored_first, 1e-6) if case["rel"] else 1.0)
       taus[a], _ = trs[a].advance(gm, np.asarray(V, np.float64), np.asarray(l, np.float64), float(tail),
                                   ridge, not np.any(g32))
       trs[a].check_inverse(np.asarray(inv, np.float64), float(const), 0.0, taus[a])
-  full = [a for a in range(2) if dims[a] == mx]
+  full = [a for a in range(2) if a not in excluded]
   tr = trs[full[0]]
   tr.ambig_entries = sum(trs[a].ambig_entries for a in full)
   tr.worst = max(trs[a].worst for a in full)
